@@ -34,6 +34,10 @@ type Opts struct {
 	MaxAddr int   `json:"max_addr"`
 	Bits    []int `json:"bits"`
 	Gap     int   `json:"gap"`
+	// Prop ("C04" or "C05"): only the violations of that property are reported. The two
+	// checks share this state space; a state that violates only the sibling property must
+	// not count as violating here (violating states are not expanded).
+	Prop string `json:"prop"`
 }
 
 type Model struct {
@@ -928,6 +932,14 @@ func (m *Model) Run(hist []string) *proto.Result {
 	}
 	r.scan("an error message", []byte(strings.Join(r.errs, "\n")))
 	res.Viol = r.viol
+	if m.O.Prop != "" {
+		res.Viol = nil
+		for _, v := range r.viol {
+			if strings.HasPrefix(v, m.O.Prop+":") {
+				res.Viol = append(res.Viol, v)
+			}
+		}
+	}
 	res.Info["instances"] = len(r.insts)
 	return res
 }
